@@ -67,7 +67,7 @@ type world struct {
 	txrAt    []*types.TxsResult
 	times    []uint64
 
-	labels       map[common.Hash]string // block hash -> what the harness made it as
+	labels       map[string]string // block id (hash + parts-set hash) -> what the harness made it as
 	commitLabels map[string]string
 	byz          []int // indices of validators that sign for the adversary (power < 1/3)
 }
@@ -123,7 +123,7 @@ func drawPowers(t *kernel.Tape, n int) []int64 {
 
 func newWorld(c *kernel.Ctx, cfg config) (*world, error) {
 	simnode.InitGlobals()
-	w := &world{c: c, cfg: cfg, chainID: "verif-c03fs", dir: scratch(c), byAddr: map[string]int{}, alts: map[uint64][]*blk{}, labels: map[common.Hash]string{}}
+	w := &world{c: c, cfg: cfg, chainID: "verif-c03fs", dir: scratch(c), byAddr: map[string]int{}, alts: map[uint64][]*blk{}, labels: map[string]string{}}
 	os.RemoveAll(w.dir)
 	if err := os.MkdirAll(w.dir, 0755); err != nil {
 		return nil, err
@@ -193,12 +193,16 @@ func (w *world) idOf(b *types.Block) types.BlockID {
 	return types.BlockID{Hash: b.Hash(), PartsHeader: b.MakePartSet(w.partSize()).Header()}
 }
 
+func idKey(id types.BlockID) string {
+	return fmt.Sprintf("%x/%d/%x", id.Hash[:], id.PartsHeader.Total, id.PartsHeader.Hash[:])
+}
+
 // register makes a blk out of a block object (which the harness keeps pristine).
 func (w *world) register(b *types.Block, label string) *blk {
 	x := &blk{h: b.Height, b: b, id: w.idOf(b), label: label}
 	x.wire = encodeBlockResponse(b)
-	if _, dup := w.labels[x.id.Hash]; !dup {
-		w.labels[x.id.Hash] = label
+	if _, dup := w.labels[idKey(x.id)]; !dup {
+		w.labels[idKey(x.id)] = label
 	}
 	return x
 }
@@ -361,7 +365,7 @@ func (w *world) produce() error {
 			}
 		}
 		w.alts[h] = keep
-		w.labels[cb.id.Hash] = "canon"
+		w.labels[idKey(cb.id)] = "canon"
 		w.canon[h] = cb
 
 		round := 0
